@@ -32,13 +32,27 @@ def pm_consts(T, N, panics=(frozenset(),), drops=None, fixed=True):
             "DropChoices": frozenset(drops if drops is not None else range(0, N + 2)), "Fixed": fixed}
 
 
-def run_harness(T: int, N: int, steps: list[str], timeout: float = 60):
+def run_harness(T: int, N: int, steps: list[str], timeout: float = 90):
+    """Runs one plan. The harness reports `hang <what>` when a call does not return within its watchdog; the clock
+    alone does not decide: a plan that reported a hang (or did not finish in time) is run again with a watchdog six
+    times longer, and only the second verdict counts (a real hang hangs again, a loaded machine does not)."""
     env = dict(os.environ)
     env["LD_LIBRARY_PATH"] = sysconfig.get_config_var("LIBDIR") + ":" + env.get("LD_LIBRARY_PATH", "")
     inp = f"{T} {N}\n" + "\n".join(steps) + "\n"
-    p = subprocess.run([str(HARNESS)], input=inp, capture_output=True, text=True, timeout=timeout, env=env)
-    log = [l.split() for l in p.stdout.strip().splitlines() if l.strip()]
-    return p.returncode, log
+
+    def once(hang_secs, limit):
+        env["VERIF_HANG_SECS"] = str(hang_secs)
+        try:
+            p = subprocess.run([str(HARNESS)], input=inp, capture_output=True, text=True, timeout=limit, env=env)
+        except subprocess.TimeoutExpired as exc:
+            out = exc.stdout.decode() if isinstance(exc.stdout, bytes) else (exc.stdout or "")
+            return -9, [l.split() for l in out.strip().splitlines() if l.strip()] + [["hang", "harness"]]
+        return p.returncode, [l.split() for l in p.stdout.strip().splitlines() if l.strip()]
+
+    rc, log = once(20, timeout)
+    if any(l and l[0] == "hang" for l in log):
+        rc, log = once(120, 7 * timeout)
+    return rc, log
 
 
 def plan_from_path(path, nodes, init_id):
@@ -163,11 +177,13 @@ def python_level(task: dict) -> dict:
                     out["problems"].append(("prefix", f"first {k} of rust {pre} != python {ref[:k]}"))
                 import time
                 t0 = time.time()
-                while len(os.listdir("/proc/self/task")) > base_threads and time.time() - t0 < 5:
+                # (drop joins its threads, so they are normally gone at once; the limit is generous because on a
+                # loaded machine a finished thread can linger in /proc for a while)
+                while len(os.listdir("/proc/self/task")) > base_threads and time.time() - t0 < 60:
                     time.sleep(0.01)
                 left = len(os.listdir("/proc/self/task")) - base_threads
                 if left > 0:
-                    out["problems"].append(("threads-left", f"{left} threads still alive 5 s after dropping the "
+                    out["problems"].append(("threads-left", f"{left} threads still alive 60 s after dropping the "
                                             f"iterator after {k} examples ({T} threads)"))
                 again = readers.read_ids(ds, "rust", "train", repeat=False, shuffle=0, file_parallelism=T)
                 if again != ref:
@@ -287,8 +303,8 @@ def run(ctx: Ctx) -> None:
             steps = plan_from_path(path, g.nodes, init_id)
             if drop == 0:
                 steps = ["drop"] + [s for s in steps if s != "drop"]
-            if n_hangs >= 6:
-                n_skipped += 1      # every hang costs the harness' 20 s watchdog; six witnesses are enough
+            if n_hangs >= 3:
+                n_skipped += 1      # every confirmed hang costs two watchdog periods; three witnesses are enough
                 continue
             rc, log = run_harness(T, N, steps)
             n_plans += 1
@@ -312,7 +328,7 @@ def run(ctx: Ctx) -> None:
     prover.shutdown()
     ctx.cov["plans_imposed_on_real_parallel_map"] = n_plans
     if n_skipped:
-        ctx.cov["plans_skipped_after_six_hangs"] = n_skipped
+        ctx.cov["plans_skipped_after_three_hangs"] = n_skipped
     ctx.cov["plans_with_panicking_item"] = n_panic
 
     # ------------------------------------------------------------------ 3. code -> spec: validate the logs
